@@ -391,6 +391,21 @@ func (fr *Frame) lookupDebug(name string, b *ssa.BasicBlock, idx int, st *State)
 						pt := in.X.Type().Underlying().(*types.Pointer)
 						return g.loadPtr(st, v, pt.Elem()), true
 					}
+					// an address-taken local (`node := rawFullNode(n.Children)` later indexed and stored into): the DebugRef of the
+					// declaration carries the initial VALUE; the variable's current content is in its cell
+					for _, ab := range fr.fn.Blocks {
+						if !(ab == blk || ab.Dominates(blk)) {
+							continue
+						}
+						for _, ai := range ab.Instrs {
+							if al, ok := ai.(*ssa.Alloc); ok && al.Comment == name {
+								if _, computed := fr.vals[al]; computed && types.Identical(al.Type().Underlying().(*types.Pointer).Elem(), in.X.Type()) {
+									pt := al.Type().Underlying().(*types.Pointer)
+									return g.loadPtr(st, fr.val(al), pt.Elem()), true
+								}
+							}
+						}
+					}
 					return v, true
 				}
 			case *ssa.Phi:
